@@ -353,7 +353,8 @@ impl UnverifiedBiscuit {
             self.container
                 .append_serialized(&next_keypair, payload, Some(external_signature))?;
 
-        let _token_block = proto_block_to_token_block(&block, Some(external_key)).unwrap();
+        // the payload comes from a third party: a block that does not convert is an error
+        let _token_block = proto_block_to_token_block(&block, Some(external_key))?;
 
         blocks.push(block);
 
